@@ -1,11 +1,12 @@
 """C25 Composite hardware is transparent.
 
 Proof half: OPM.Properties.C25 — `read_batch` through the composite returns, register for register and in request
-order, what a single read of each register on its own layer returns (`readBatch_transparent`), each involved layer
-is asked once for exactly its registers in request order (`readBatch_calls`); `write_batch` leaves every layer's
-memory equal to the sequence of single writes (`writeBatch_transparent`, duplicates included) and — for batches
-without duplicate registers — delivers to every layer exactly its (register, value) pairs in request order
-(`writeBatch_calls`); missing layer / failing layer errors are passed through.
+order, what a single read of each register on its own layer returns (`readBatch_transparent`); `write_batch` leaves
+every layer's memory equal to the sequence of single writes (`writeBatch_transparent`, duplicates included) and — for
+batches without duplicate registers — the (register, value) pairs reaching a layer are exactly its pairs in request
+order (`writeBatch_order`); missing layer / failing layer errors are passed through.  HOW the layers are called (one
+batch call per layer, first-appearance order) is an implementation note (OPM.Lemmas.CompositeCalls), not a claim:
+the compared view and the oracle contain values, per-layer write order and memory only.
 Tie half: the real `Composite_Hardware` over fake layers (register memory + call log) against the model.
 """
 from __future__ import annotations
@@ -20,7 +21,8 @@ META = dict(
                "in request order; a composite batch write leaves every layer's memory equal to the sequential single "
                "writes and hands each layer its registers and values in request order; errors of a missing or failing "
                "layer are passed through. The model is tied to composite_hardware.py by differential execution "
-               "(exhaustive assignments/orders for 3 registers on 2 layers, random batches on up to 4 layers).",
+               "(exhaustive assignments/orders for 3 registers on 2 layers, random batches on up to 4 layers, list and "
+               "generator arguments); how the layers are called is not part of the claim.",
     level_note="Trusted: Lean kernel (+ propext/Classical.choice/Quot.sound), the harness (fake layers). Layers are "
                "modelled as register stores whose read_batch/write_batch act like the single operations and whose "
                "reads are repeatable; one Register object per register name. For a register named twice in one "
@@ -29,8 +31,8 @@ META = dict(
     technique="Lean 4 proof (list/assoc-map lemmas: grouping by first appearance, dict folds) + differential correspondence",
 )
 MODULE = "OPM.Properties.C25"
-REQUIRED = ["OPM.C25.readBatch_transparent", "OPM.C25.readBatch_calls", "OPM.C25.writeBatch_transparent",
-            "OPM.C25.writeBatch_calls", "OPM.C25.read_single", "OPM.C25.write_single",
+REQUIRED = ["OPM.C25.readBatch_transparent", "OPM.C25.writeBatch_transparent",
+            "OPM.C25.writeBatch_order", "OPM.C25.read_single", "OPM.C25.write_single",
             "OPM.C25.readBatch_missing_layer", "OPM.C25.writeBatch_missing_layer",
             "OPM.C25.readBatch_failing_layer", "OPM.C25.writeBatch_failing_layer"]
 
@@ -81,9 +83,9 @@ def gen_random(ctx: Check, n: int, malformed: bool) -> list[list[str]]:
             elif k < 0.4:
                 lines.append(f"write\t{rng.randrange(0, 50)}\t{rng.choice(regs_pool)}")
             elif k < 0.68:
-                lines.append("readb\t" + _j(regs))
+                lines.append(("readbg\t" if rng.random() < 0.2 else "readb\t") + _j(regs))
             elif k < 0.96 or not malformed:
-                lines.append("writeb\t" + _j(vals) + "\t" + _j(regs))
+                lines.append(("writebg\t" if rng.random() < 0.2 else "writeb\t") + _j(vals) + "\t" + _j(regs))
             else:
                 lines.append(f"fail\t{rng.randrange(nl)}\t{rng.randrange(2)}")
         if malformed and rng.random() < 0.5:
@@ -121,6 +123,9 @@ def oracle(lines: list[str]) -> list[Failure]:
         f = ln.split("\t")
         out = impl0.op(ln)
         after = snapshot(impl0)
+        gen_arg = f[0] in ("readbg", "writebg")
+        if gen_arg:
+            f[0] = f[0][:-1]
         if f[0] in ("readb", "writeb"):
             regs = [int(x) for x in composite._lst(f[-1])]
             lays = [layer_of(impl0, r) for r in regs]
@@ -133,7 +138,11 @@ def oracle(lines: list[str]) -> list[Failure]:
                 want = "vals:" + composite._sl(composite._sv(before[l].get(f"R{r}")) for r, l in zip(regs, lays))
                 got = out.split("\t")[0]
                 if got != want:
-                    bad("batch-read-differs-from-single-reads", i, f"returned {got}, single reads give {want}")
+                    if gen_arg and got == "vals:-":
+                        bad("batch-read-of-generator-argument-returns-nothing", i,
+                            f"read_batch(<generator>) returned {got}, single reads give {want}")
+                    else:
+                        bad("batch-read-differs-from-single-reads", i, f"returned {got}, single reads give {want}")
                 if after != before:
                     bad("batch-read-changed-layer-memory", i, "layer memory changed by a read")
             if usable and f[0] == "writeb":
@@ -165,10 +174,26 @@ def run(ctx: Check) -> int:
                 "1-4 layers, 1-8 registers, 3-13 ops (poke, read, write, read_batch, write_batch) with batches of 0-6 "
                 "registers, half of them drawn with replacement (duplicates within and across batches), values None / "
                 "-3..11. malformed: registers without a layer, unequal value/register list lengths, failing layers, "
-                "empty batches. Non-trivial = some batch touches two or more layers.")
+                "empty batches; a fifth of the batches is passed as generators instead of lists. Compared per op: result, "
+                "per-layer sequence of delivered (register, value) pairs (not for batches naming a register twice), "
+                "per-layer memory — not the read calls. Non-trivial = some batch touches two or more layers.")
+
+    def layers_touched(c):
+        """per batch op of the case: number of distinct layers of its registers (from the case's `layers` lines)"""
+        assign, res = {}, []
+        for ln in c:
+            f = ln.split("\t")
+            if f[0] == "layers":
+                assign = {}
+                for p in composite._lst(f[1]):
+                    r, l = p.split(":")
+                    assign.setdefault(int(r), int(l))
+            elif f[0] in ("readb", "readbg", "writeb", "writebg"):
+                res.append((ln, len({assign[int(x)] for x in composite._lst(f[-1]) if int(x) in assign})))
+        return res
 
     def nontrivial(c, out):
-        return any(ln.split("\t")[1].count("[") >= 2 for ln in out if "\tcalls=" in ln)
+        return any(n >= 2 for _, n in layers_touched(c))
 
     for name, cases in (("corpus", corpus), ("small", small), ("random", rnd), ("malformed", mal)):
         if not cases:
@@ -177,12 +202,14 @@ def run(ctx: Check) -> int:
         if name == "small" and mout:
             ctx.selftest(name, "Composite", cases, lambda c: [ln.replace("readb\t", "readbm\t") for ln in c], mout)
         for c, o in zip(cases, out):
-            for ln, a in zip(c, o):
-                if ln.startswith(("readb", "writeb")):
-                    regs = [x for x in ln.split("\t")[-1].split(";") if x != "-"]
-                    ctx.count("batches")
-                    ctx.count("batches_with_duplicate_register", int(len(set(regs)) != len(regs)))
-                    ctx.count(f"layers_touched:{a.split(chr(9))[1].count('[')}")
+            for ln, n in layers_touched(c):
+                regs = [x for x in ln.split("\t")[-1].split(";") if x != "-"]
+                ctx.count("batches")
+                ctx.count("batches_with_duplicate_register", int(len(set(regs)) != len(regs)))
+                ctx.count("batches_with_generator_argument", int(ln.split("\t")[0].endswith("g")))
+                ctx.count(f"layers_touched:{n}")
+            for a in o:
+                if a not in ("ok", "bad-op"):
                     ctx.count("result:" + a.split("\t")[0].split(":")[0] + (":" + a.split("\t")[0].split(":")[1]
                               if a.startswith("raise") else ""))
     orc = corpus + small + rnd + mal
